@@ -754,6 +754,9 @@ func (e *Engine) explore(st *State) {
 		in := t.blk.Instrs[t.idx]
 		fc := t.fc
 		mayPanic := e.rule.OnInstr(e, st, fc, in)
+		if st.dead {
+			return
+		}
 		if mayPanic {
 			alt := st.clone()
 			alt.Note(in.Pos(), "panics here")
